@@ -45,6 +45,13 @@ def _gen_one(a):
         for q in d["params"]:
             if q["name"] in (b"LABELS", b"DESCRIPTIONS", b"UNITS") and q["type"] == -1:
                 q["values"] = [bytes(reversed(v)) if len(set(v)) > 1 else bytes((c ^ 1) if c > 32 else c for c in v) for v in q["values"]]
+        # ... and the groups numbered the other way round (what a loader remembers about "which id is POINT" must not carry over)
+        ids = sorted(g["id"] for g in d["groups"])
+        remap = dict(zip(ids, reversed(ids)))
+        for g in d["groups"]:
+            g["id"] = remap[g["id"]]
+        for q in d["params"]:
+            q["gid"] = remap.get(q["gid"], q["gid"])
         d["frames"] = [([tuple((w ^ 0x00400000) & 0xFFFFFFFF for w in pt) for pt in pts], [[w ^ 0x00010000 for w in sf] for sf in an]) for pts, an in d["frames"]]
         try:
             with open(p + ".decoy", "wb") as f:
